@@ -39,7 +39,7 @@ example : ∃ g, (volOf (finalDisk (formatted 10) [.put exF exTime, .lock (str "
       intro op hop
       simp only [List.mem_cons, List.not_mem_nil, or_false] at hop
       rcases hop with rfl | rfl | rfl <;>
-        exact ⟨rootPath_simple _ _ (by decide) (by decide) (by decide),
+        exact ⟨Or.inl (rootPath_simple _ _ (by decide) (by decide) (by decide)),
           fun p t a h => (by cases h),
           fun f t h => (by cases h <;> exact exF_args),
           fun p t h => (by cases h)⟩)
